@@ -1056,9 +1056,11 @@ def ringYankPop : EM (Option (Nat × Text)) := fun s =>
   | .ok (k, t) => .ok (t, { s with ring := k })
   | .error _ => .error (.panic, s)
 
+/-- `Cmd::ViYankTo`: `kill_ring.kill(&text, Mode::Append); kill_ring.reset()` (a copy is not a kill:
+    the next kill command must not extend the copied text) -/
 def ringKill (t : Text) : EM Unit := fun s =>
   match s.ring.kill t .append with
-  | .ok k => .ok ((), { s with ring := k })
+  | .ok k => .ok ((), { s with ring := k.reset })
   | .error _ => .error (.panic, s)
 
 /-- what Enter does, given the verdict: the decision table of `command.rs:132-156` -/
@@ -1108,6 +1110,10 @@ def execute (cmd : Cmd) : EM Status := do
     match text with
     | some t => editInsertText S U cfg t
     | none => pure ()
+    -- `!input_state.is_inserting()`: replayed by `.` (or bound by the application): no insert session
+    -- follows that would close the undo group `next_cmd` opened for this command
+    let inserting ← (fun s => .ok (cfg.vi && s.inp.inputMode != .command, s) : EM Bool)
+    if !inserting then do let _ ← changesEnd; pure ()
     pure .proceed
   | .overwrite c => do editOverwriteChar S U cfg c; pure .proceed
   | .endOfFile => do
